@@ -43,7 +43,7 @@ def run(ctx, replay=None):
                 if s['model'] in ('stable', 'matern') and s['vkw'].get('fit_method') == 'manual':
                     s['vkw']['fit_shape'] = 1.0
             # truncated (sparse) distance handling only where it is defined: Euclidean metric, bounded-range model
-            s['sparse'] = bool(s.get('sparse')) and s['metric'] == 'euclidean' and s['model'] in ('spherical', 'cubic') and not s.get('mkw')
+            s['sparse'] = (bool(s.get('sparse')) or rng.random() < 0.5) and s['metric'] == 'euclidean' and s['model'] in ('spherical', 'cubic') and not s.get('mkw')
             ctx.count('sparse_option', s['sparse'])
             r = kc.check_setup(ctx, model, s, oracle=True, prop='C08')
             if r is None:
@@ -69,6 +69,23 @@ def run(ctx, replay=None):
                 so = dict(s, targets=obs[pick].tolist())
                 try:
                     zo, sgo, oko, _ = krige(so)
+                    # the same instance after a detour through the approximate mode: still exact at the observations
+                    try:
+                        oko.mode = 'estimate'
+                        try:
+                            kc.run_transform(oko, so['targets'])
+                        except Exception:
+                            pass
+                        oko.mode = 'exact'
+                        zo2 = np.asarray(kc.run_transform(oko, so['targets']), float)
+                        sgo2 = np.asarray(oko.sigma, float)
+                        for t_ in range(len(zo)):
+                            if zo[t_] == zo[t_] and not (gen.close(zo2[t_], zo[t_], 1e-6, 1e-6) and gen.close(sgo2[t_], sgo[t_], 1e-6, 1e-6)):
+                                ctx.problem('oracle', 'kriging at an observed location: the result of exact mode changes after the instance was used in estimate mode', so,
+                                            {'target': t_, 'first': [float(zo[t_]), float(sgo[t_])], 'after_detour': [float(zo2[t_]), float(sgo2[t_])]}, {'what': 'exactness-mode-history'})
+                                break
+                    except Exception as e:
+                        ctx.count('mode_detour_rejected', type(e).__name__)
                     if oko._verif_maxcond > 1e7:
                         raise ArithmeticError('illconditioned')
                     _, vals = kc.dedup(s['coords'], s['values'])
@@ -94,6 +111,20 @@ def run(ctx, replay=None):
                 z2, sg2, _, _ = krige(s, values=v + c)
                 cmp(ctx, s, 'adding a constant to the observations does not add it to every estimate', z2[est], z[est] + c)
                 cmp(ctx, s, 'adding a constant to the observations changes the kriging variances', sg2[est], sg[est])
+                # the same laws with the observations handed to the kriging instance directly (values=...), variogram object unchanged
+                if not s.get('mkw') and not s.get('coords_dtype'):
+                    try:
+                        from skgstat import OrdinaryKriging
+                        kwv = dict(min_points=s['min_points'], max_points=s['max_points'], solver=s['solver'], sparse=s['sparse'])
+                        okv = OrdinaryKriging(V, values=v + c, **kwv)
+                        zv = np.asarray(kc.run_transform(okv, s['targets']), float)
+                        cmp(ctx, s, 'observations passed as values= (shifted by c): the constant is not added to every estimate', zv[est], z[est] + c)
+                        okv2 = OrdinaryKriging(V, coordinates=np.array(s['coords'], float), values=np.full(len(v), 2.5), **kwv)
+                        zv2 = np.asarray(kc.run_transform(okv2, s['targets']), float)
+                        cmp(ctx, s, 'observations passed as values= (constant field) are not reproduced', zv2[est], np.full(int(est.sum()), 2.5))
+                        done += 1
+                    except Exception as e:
+                        ctx.count('values_keyword_rejected', type(e).__name__)
                 # scale k, sill and nugget * k^2
                 k = float(rng.choice([2.0, -3.0, 0.5, 1e-5, 4096.0]))       # incl. a change of unit by several orders of magnitude
                 vk = dict(s['vkw'])
